@@ -460,7 +460,7 @@ func (d *NNSDriver) Step(x *Exec, n *Node, i int) StepResult {
 	h := w.Contracts["nns"].Hash
 	where := map[string]any{"op": o.kind, "name": o.name}
 	viol := func(class, msg string) StepResult {
-		return StepResult{V: Viol(class, msg, where), Outcome: "VIOLATION"}
+		return StepResult{V: Viol(class, msg, where), Outcome: "violation"}
 	}
 	if o.kind == "time" {
 		e, _ := m.earliestExp()
@@ -761,7 +761,7 @@ func (d *NNSDriver) readback(x *Exec, prev, nn *Node, m, nm *nnsModel, outcome s
 	h := w.Contracts["nns"].Hash
 	where := map[string]any{"op": o.kind, "name": o.name}
 	viol := func(class, msg string, wh map[string]any) StepResult {
-		return StepResult{V: Viol(class, msg, wh), Outcome: "VIOLATION"}
+		return StepResult{V: Viol(class, msg, wh), Outcome: "violation"}
 	}
 	rd := func(method string, args ...any) Obs { return w.Read(nn.L, nn.H, nn.TS, h, method, args...) }
 	var soft []*Violation
